@@ -12,6 +12,7 @@ mod prng;
 mod props;
 mod runner;
 mod scenario;
+mod worlda;
 
 use runner::{Options, Tier, DEFAULT_SEED};
 
@@ -32,7 +33,7 @@ fn main() {
     let mut seed = std::env::var("VERIF_SEED").ok().and_then(|s| s.trim().parse::<u64>().ok()).unwrap_or(DEFAULT_SEED);
     let mut runs = std::env::var("VERIF_RUNS").ok().and_then(|s| s.parse::<u64>().ok());
     let mut replay: Option<String> = None;
-    let mut write_evidence = true;
+    let mut write_evidence = std::env::var("VERIF_NO_EVIDENCE").is_err();
     let mut i = 1;
     while i < args.len() {
         match args[i].as_str() {
